@@ -291,6 +291,7 @@ def c05(ctx):
 
 @check("C06", ["C06_"])
 def c06(ctx):
+    recv_component(ctx, "C06")
     files = xfer_traces(ctx, ["pr", "pr", "lossy", "reorder", "il"], 160, 4000)
     ctx.validate(files)
 
@@ -376,6 +377,66 @@ def c17(ctx):
     ctx.distinct.add(("sched-component",))
     files = xfer_traces(ctx, ["il", "il", "basic", "pr", "lossy"], 120, 3000)
     ctx.validate(files)
+
+
+def handshake_family(ctx, opts_quick=(0, 5, 10, 15), nbeh_quick=40, nbeh_thorough=400):
+    """Handshake.tla: exhaustive TLC per (role, option) case + behaviours replayed on the real code."""
+    from concurrent.futures import ThreadPoolExecutor
+    binp = ctx.harness()
+    roles = (1, 2, 3)
+    opts = opts_quick if ctx.quick else tuple(range(16))
+    cases = [(r, o) for r in roles for o in opts]
+
+    def design(case):
+        r, o = case
+        return L.run_tlc(ctx.scr, "MC_Handshake", "MC_Handshake_r%d_o%d.cfg" % (r, o), workers=2, timeout=900, heap="3g")
+    with ThreadPoolExecutor(max_workers=8) as ex:
+        rs = list(ex.map(design, cases))
+    for (r, o), res in zip(cases, rs):
+        ctx.design.append({"module": "MC_Handshake", "cfg": "r%d_o%d" % (r, o), "distinct": res["distinct"], "generated": res["generated"],
+                           "wall_s": res["wall_s"], "ok": res["ok"], "cmd": res["cmd"]})
+        if not res["ok"]:
+            raise L.MachineryError("design-level Handshake model r%d o%d did not pass:\n%s" % (r, o, "\n".join(res["out"].splitlines()[-40:])))
+    ctx.tlc_design("MC_Handshake", "MC_Handshake_silent.cfg", workers=2, timeout=300)
+    out = ctx.scr.mkdir("hs")
+
+    def replay(case):
+        r, o = case
+        path, nb = tlc_behaviours(ctx, "MC_Handshake", "MC_Handshake_r%d_o%d_sim.cfg" % (r, o), nbeh_quick if ctx.quick else nbeh_thorough, 40,
+                                  seed=ctx.seed * 100 + r * 16 + o, workers=2)
+        p = L.run_harness(binp, "hs-replay", out, {"VF_IN": path, "VF_ROLE": r, "VF_OPT": o, "VF_NSHARDS": 1, "VF_SHARD": 0})
+        if p.returncode != 0:
+            raise L.MachineryError("hs-replay failed: " + (p.stdout + p.stderr)[-2000:])
+        return path, nb
+    with ThreadPoolExecutor(max_workers=6) as ex:
+        res = list(ex.map(replay, cases))
+    for (path, nb), (r, o) in zip(res, cases):
+        ctx.replayed += nb
+        ctx.distinct.add(("hs", r, o))
+        if len(ctx.samples) < 3:
+            ctx.samples.append({"handshake_schedule": open(path).readline()[:700]})
+    files = sorted(glob.glob(os.path.join(out, "hs-*.ndjson")))
+    files += directed_traces(ctx, "hs-special", 1)
+    return files
+
+
+@check("C04", ["C04_"])
+def c04(ctx):
+    files = handshake_family(ctx)
+    ctx.validate(files)
+    ctx.rule = ("every (role assignment x option combination) case: exhaustive TLC of Handshake.tla (<=2 losses/delays, <=1 duplicate, all "
+                "orders) and TLC-simulated fault schedules replayed on the real code at 4 initial-TSN pairs; plus silent-peer, closed-transport "
+                "and out-of-band-token scenarios")
+
+
+@check("C13", ["C13_"])
+def c13(ctx):
+    files = directed_traces(ctx, "cksum", 8, {"VF_NFLIPS": 48 if ctx.quick else 2000})
+    files += handshake_family(ctx, opts_quick=(0, 4, 8, 12), nbeh_quick=20, nbeh_thorough=150)
+    files += xfer_traces(ctx, ["basic", "lossy", "pr", "il"], 64, 2000)
+    ctx.validate(files)
+    ctx.notes.append("cksum: all 4 per-side zero-checksum option combinations x DATA/I-DATA x {wrong, zero, correct, bit-flipped} copies of every genuine "
+                     "packet (incl. INIT and COOKIE-ECHO) injected before the genuine one; emission rule monitored on every packet of every run")
 
 
 @check("C10", ["C10_"])
